@@ -175,6 +175,10 @@ func (e *Eng) actDevicePoll() {
 		} else if issued {
 			e.viol("C16/tokens-without-approval", "%v yielded tokens with reasons %v", d, reasons)
 		}
+		if has("used") {
+			// a replay inside the expiry margin may or may not revoke the tokens issued from the code
+			e.unspecFamily(g, "device-replay-inside-expiry-margin")
+		}
 		e.invariant("")
 		return
 	}
